@@ -3,6 +3,18 @@
 import json, os, sys
 ROOT = os.path.dirname(os.path.dirname(os.path.abspath(__file__)))
 claims = json.load(open(os.path.join(ROOT, "tools", "claims.json")))
+import glob
+for f in sorted(glob.glob(os.path.join(ROOT, "tools", "claims.d", "C*.json"))):
+    c = json.load(open(f))
+    pid = os.path.basename(f)[:-5]
+    if c.get("not_applicable"):
+        claims["not_applicable"][pid] = c["not_applicable"]
+        claims["claimed"].pop(pid, None)
+    else:
+        claims["claimed"][pid] = c
+    for h in c.get("hook_commits", []):
+        if h not in claims.setdefault("hook_commits", []):
+            claims["hook_commits"].append(h)
 props = [json.loads(l) for l in open(os.path.join(ROOT, "properties.jsonl"))]
 ids = [p["id"] for p in props]
 checks, na = [], []
